@@ -435,8 +435,9 @@ func probaNt(sequenceCodes [][]uint8, selectedSites []bool, weights []float64) (
 					for _, n := range id1 {
 						pi[ntByteToId[n]] += w / float64(len(id1))
 					}
+					// only nucleotides enter the total: the frequencies sum to 1 also when a kept column holds gaps
+					total += w
 				}
-				total += w
 			}
 		}
 	}
